@@ -737,8 +737,8 @@ type wsDriver struct {
 	uuids        map[string]int // LocalID -> handle
 	active       map[int]uint64 // sub handle -> server id it was last confirmed with
 	oldSubIDs    []uint64
-	staleSubReqs []uint64 // ids of eth_subscribe requests that were unanswered when their connection dropped
-	staleCalls   []uint64 // ids of calls that were unanswered when their connection dropped
+	staleSubReqs []uint64    // ids of eth_subscribe requests that were unanswered when their connection dropped
+	staleCalls   []uint64    // ids of calls that were unanswered when their connection dropped
 	unsubbing    map[int]int // sub handle -> call handle of its eth_unsubscribe (if one is outstanding)
 	unsubbed     map[int]bool
 	subCancelled map[int]bool
@@ -753,7 +753,7 @@ type wsDriver struct {
 	configured map[int]bool
 	pause      map[int]chan chan struct{} // per consumer: send a channel to make it stop reading until that channel is closed
 	stop       chan struct{}              // closed at the end of the sequence
-	oracle     []string // violations of the routing clause seen in this sequence
+	oracle     []string                   // violations of the routing clause seen in this sequence
 }
 
 func (d *wsDriver) add(coq, desc string) {
@@ -2202,6 +2202,7 @@ func runWSStress(r *cv.Rand, st *cv.Stats, nCallers, perCaller, nSubs, drops int
 		if me < drops {
 			dropAfter = 15 + lr.Intn(40)
 		}
+		accepted := time.Now()
 		var wmu sync.Mutex
 		write := func(s string) {
 			wmu.Lock()
@@ -2289,7 +2290,9 @@ func runWSStress(r *cv.Rand, st *cv.Stats, nCallers, perCaller, nSubs, drops int
 					flush()
 				}
 			}
-			if dropAfter > 0 && n >= dropAfter {
+			// (not while the client's reconnect hook may still be resubscribing: known finding
+			// C18/drop-during-reconnect-hook-wedges-client, which has its own witness)
+			if dropAfter > 0 && n >= dropAfter && time.Since(accepted) > 30*time.Millisecond {
 				if tc, ok := c.UnderlyingConn().(*net.TCPConn); ok {
 					_ = tc.SetLinger(0)
 				}
@@ -2309,9 +2312,10 @@ func runWSStress(r *cv.Rand, st *cv.Stats, nCallers, perCaller, nSubs, drops int
 	var firstBad atomic.Value
 	for i := 0; i < nSubs; i++ {
 		tag := fmt.Sprintf("sub-%d", i)
-		sctx, cancel := context.WithTimeout(ctx, 5*time.Second)
+		sctx, cancel := context.WithCancel(ctx)
+		guard := time.AfterFunc(5*time.Second, cancel)
 		sub, e := rc.Subscribe(sctx, "verif", tag)
-		cancel()
+		guard.Stop() // sctx stays alive: it is the parent of the subscription's context
 		if e != nil || sub == nil {
 			continue
 		}
@@ -2371,13 +2375,214 @@ func runWSStress(r *cv.Rand, st *cv.Stats, nCallers, perCaller, nSubs, drops int
 	}
 	conns := connNo
 	mu.Unlock()
+	key := ""
+	if hung > 0 && wrong == 0 && wrongNotif == 0 && dups == 0 {
+		// is the client still alive?  If a fresh call is not answered either, the client is not connected any more:
+		// the wedge of the known finding (a connection that died inside the reconnect hook), not a lost call
+		pctx, pc := context.WithTimeout(ctx, 2*time.Second)
+		var out string
+		if e := rc.CallRPC(pctx, &out, "verif_stress", "probe"); e != nil {
+			key = "C18/drop-during-reconnect-hook-wedges-client"
+		}
+		pc()
+	}
 	if wrong > 0 || hung > 0 || wrongNotif > 0 || dups > 0 {
-		*fails = append(*fails, map[string]interface{}{"what": "WebSocket client under concurrent callers: a call returned a result that is not its own, hung, a notification reached the wrong subscription, or a request id was used twice",
+		*fails = append(*fails, map[string]interface{}{"key": key, "what": "WebSocket client under concurrent callers: a call returned a result that is not its own, hung, a notification reached the wrong subscription, or a request id was used twice",
 			"callers": nCallers, "wrong_results": wrong, "hung": hung, "wrong_notifications": wrongNotif, "duplicate_ids": dups, "first": firstBad.Load()})
 	}
 	st.Hit(fmt.Sprintf("ws-stress:callers=%d:subs=%d:connections=%d", nCallers, nSubs, conns))
 	st.Extra[fmt.Sprintf("ws_stress_%d_callers", nCallers)] = map[string]int64{"own_result": own, "errors_after_drop": errs, "notifications": gotNotif, "connections": int64(conns)}
 	st.Evaluations += nCallers * perCaller
+}
+
+// Regression hunt for the repaired defect 8f787ed (D18c): the server confirms an eth_subscribe and closes the connection
+// at once, while other goroutines keep the client's mutex busy through Subscriptions().  Before the repair the receive
+// loop could take the confirmation off the pending table before the reconnect cleared the tables and record the old
+// connection's server id afterwards (reproduced within about ten iterations); a notification carrying that id on the
+// new connection was then delivered.  Timing dependent: can only find a failure, never raise a false one.
+func runConfirmStraddleHunt(st *cv.Stats, budget time.Duration) interface{} {
+	st.Hit("ws:hunt:confirmation-straddles-reconnect")
+	deadline := time.Now().Add(budget)
+	iters := 0
+	var connNo int32
+	up := websocket.Upgrader{}
+	srv := httptest.NewServer(http.HandlerFunc(func(w http.ResponseWriter, r *http.Request) {
+		c, err := up.Upgrade(w, r, nil)
+		if err != nil {
+			return
+		}
+		me := atomic.AddInt32(&connNo, 1)
+		for {
+			_, msg, err := c.ReadMessage()
+			if err != nil {
+				return
+			}
+			var rq struct {
+				ID     json.RawMessage `json:"id"`
+				Method string          `json:"method"`
+			}
+			_ = json.Unmarshal(msg, &rq)
+			if rq.Method != "eth_subscribe" {
+				continue
+			}
+			_ = c.WriteMessage(websocket.TextMessage, []byte(fmt.Sprintf(`{"jsonrpc":"2.0","id":%s,"result":"0xc%d"}`, rq.ID, me)))
+			if me == 1 {
+				if tc, ok := c.UnderlyingConn().(*net.TCPConn); ok {
+					_ = tc.SetLinger(0)
+				}
+				_ = c.Close()
+				return
+			}
+			_ = c.WriteMessage(websocket.TextMessage, []byte(`{"jsonrpc":"2.0","method":"eth_subscription","params":{"subscription":"0xc1","result":"old"}}`))
+			_ = c.WriteMessage(websocket.TextMessage, []byte(fmt.Sprintf(`{"jsonrpc":"2.0","method":"eth_subscription","params":{"subscription":"0xc%d","result":"new"}}`, me)))
+		}
+	}))
+	defer srv.Close()
+	for time.Now().Before(deadline) {
+		iters++
+		atomic.StoreInt32(&connNo, 0)
+		ctx, cancel := context.WithCancel(context.Background())
+		rc := rpcbackend.NewWSRPCClient(&wsclient.WSConfig{HTTPURL: srv.URL, InitialDelay: time.Microsecond, MaximumDelay: time.Millisecond})
+		bad := false
+		if err := rc.Connect(ctx); err == nil {
+			stop := make(chan struct{})
+			for g := 0; g < 8; g++ {
+				go func() {
+					for {
+						select {
+						case <-stop:
+							return
+						default:
+							_ = rc.Subscriptions()
+						}
+					}
+				}()
+			}
+			// (the subscription's own context is a child of the one Subscribe is called with: it must stay alive, or
+			// the receive loop is free to drop every notification)
+			sctx, c2 := context.WithCancel(ctx)
+			guard := time.AfterFunc(2*time.Second, c2)
+			sub, _ := rc.Subscribe(sctx, "newHeads")
+			guard.Stop()
+			if sub != nil {
+				t := time.After(time.Second)
+			wait:
+				for {
+					select {
+					case n, ok := <-sub.Notifications():
+						if !ok {
+							break wait
+						}
+						if n.Result != nil && string(*n.Result) == `"old"` {
+							bad = true
+						}
+						if n.Result != nil && string(*n.Result) == `"new"` {
+							break wait
+						}
+					case <-t:
+						break wait
+					}
+				}
+			}
+			close(stop)
+			rc.Close()
+		}
+		cancel()
+		if bad {
+			return map[string]interface{}{"what": "a notification carrying the server id a subscription had on the OLD connection was delivered to it on the new connection (confirmation handled across the reconnect)",
+				"history": []string{"Subscribe(newHeads); server confirms with 0xc1 and closes the connection at once; 8 goroutines call Subscriptions() in a loop",
+					"client reconnects and re-requests; server confirms with 0xc2 and sends notifications for 0xc1 (\"old\") and 0xc2 (\"new\")",
+					fmt.Sprintf("iteration %d: the consumer received the notification \"old\"", iters)}}
+		}
+	}
+	st.Extra["confirm_straddle_hunt_iterations"] = iters
+	return nil
+}
+
+// Known finding C18/drop-during-reconnect-hook-wedges-client: the deterministic witness.  Six configured subscriptions;
+// the server drops the connection and resets the next one as soon as it is accepted.  handleReconnect re-requests the
+// subscriptions through wsclient.Send; the send loop of the new connection ends at its first failed write, nobody
+// receives from the send channel any more, and the hook (hence the whole connect/reconnect loop) blocks for ever: the
+// client never reconnects, every later call blocks in Send until its own context ends.
+func runDropDuringHook(st *cv.Stats) interface{} {
+	st.Hit("ws:witness:drop-during-reconnect-hook")
+	var connNo int32
+	up := websocket.Upgrader{}
+	srv := httptest.NewServer(http.HandlerFunc(func(w http.ResponseWriter, r *http.Request) {
+		c, err := up.Upgrade(w, r, nil)
+		if err != nil {
+			return
+		}
+		me := atomic.AddInt32(&connNo, 1)
+		kill := func() {
+			if tc, ok := c.UnderlyingConn().(*net.TCPConn); ok {
+				_ = tc.SetLinger(0)
+			}
+			_ = c.Close()
+		}
+		if me == 2 {
+			kill()
+			return
+		}
+		n := 0
+		for {
+			_, msg, err := c.ReadMessage()
+			if err != nil {
+				return
+			}
+			var rq struct {
+				ID     json.RawMessage `json:"id"`
+				Method string          `json:"method"`
+			}
+			_ = json.Unmarshal(msg, &rq)
+			switch rq.Method {
+			case "eth_subscribe":
+				n++
+				_ = c.WriteMessage(websocket.TextMessage, []byte(fmt.Sprintf(`{"jsonrpc":"2.0","id":%s,"result":"0x%d%d"}`, rq.ID, me, n)))
+			case "verif_drop":
+				kill()
+				return
+			default:
+				_ = c.WriteMessage(websocket.TextMessage, []byte(fmt.Sprintf(`{"jsonrpc":"2.0","id":%s,"result":"ok"}`, rq.ID)))
+			}
+		}
+	}))
+	defer srv.Close()
+	ctx, cancel := context.WithCancel(context.Background())
+	defer cancel()
+	rc := rpcbackend.NewWSRPCClient(&wsclient.WSConfig{HTTPURL: srv.URL, InitialDelay: 500 * time.Microsecond, MaximumDelay: 2 * time.Millisecond})
+	if err := rc.Connect(ctx); err != nil {
+		return nil
+	}
+	defer rc.Close()
+	for i := 0; i < 6; i++ {
+		sctx, c := context.WithTimeout(ctx, 2*time.Second)
+		_, e := rc.Subscribe(sctx, "newHeads", i)
+		_ = c // (the subscription's context is a child of sctx: not cancelled here)
+		if e != nil {
+			return nil
+		}
+	}
+	c1, k1 := context.WithTimeout(ctx, time.Second)
+	_ = rc.CallRPC(c1, nil, "verif_drop")
+	k1()
+	// a correct client is connected again within milliseconds; give it two seconds
+	var e *rpcbackend.RPCError
+	var out string
+	for try := 0; try < 4; try++ {
+		c2, k2 := context.WithTimeout(ctx, 500*time.Millisecond)
+		e = rc.CallRPC(c2, &out, "verif_ping")
+		k2()
+		if e == nil {
+			return nil
+		}
+	}
+	return map[string]interface{}{
+		"key":  "C18/drop-during-reconnect-hook-wedges-client",
+		"what": fmt.Sprintf("after a drop whose next connection was reset while handleReconnect was re-requesting 6 subscriptions the client never reconnected (%d connections accepted in 2 s); a later call failed with: %s", atomic.LoadInt32(&connNo), e.Message),
+		"history": []string{"6 x Subscribe(newHeads, i), each confirmed", "server drops connection 1 and resets connection 2 as soon as it is accepted",
+			"CallRPC(verif_ping) with a 500 ms context, 4 times: never answered, no third connection"},
+	}
 }
 
 // The parent process: runs the harness proper as a child.  The clients under test start goroutines of their own; a
@@ -2555,6 +2760,18 @@ func main() {
 			continue
 		}
 		addCase(coq, d)
+	}
+	jlog("=== WebSocket: the connection is reset while handleReconnect is resubscribing")
+	if f := runDropDuringHook(st); f != nil {
+		fails = append(fails, f)
+	}
+	jlog("=== WebSocket: hunt for a confirmation handled across a reconnect")
+	huntBudget := 1200 * time.Millisecond
+	if thorough {
+		huntBudget = 20 * time.Second
+	}
+	if f := runConfirmStraddleHunt(st, huntBudget); f != nil {
+		fails = append(fails, f)
 	}
 	// ---- WebSocket: free-running
 	for _, p := range []struct{ callers, per, subs, drops int }{{8, 12, 2, 2}, {64, 6, 3, 3}, {24, 10, 1, 0}} {
